@@ -76,7 +76,59 @@ ASSUMPTIONS_C18 = [
 ]
 
 
+def check_c12(tier, seed, t0):
+    from . import drive_fund
+    prop = "C12"
+    models = [] if os.environ.get("VERIF_TRACES_ONLY") == "1" else table_models([("MC_PamsFundamentals", "MC_PamsFundamentals.cfg")])
+    lines = drive_fund.all_lines(tier, seed)
+    keep = ("mode", "chunk", "ev", "cs")
+    path = os.path.join(WORK, "TraceFund-%d.ndjson" % os.getpid())
+    with open(path, "w") as f:
+        for d in lines:
+            f.write(dumps({k: d[k] for k in keep if k in d}) + "\n")
+    try:
+        res, r = tlc.validate_traces("TraceFund", "TraceFund.cfg", path, len(lines), workers=8, tag="TraceFund")
+    finally:
+        os.remove(path)
+    cases = []
+    nev = 0
+    distinct = set()
+    for i, d in enumerate(lines):
+        vd = res[i + 1][1].get(prop, "ok")
+        items = d.get("ev") or d.get("cs")
+        nev += len(items)
+        for e in items:
+            if e.get("chg") or e.get("k") in ("shock", "chg") or e.get("c"):
+                distinct.add(json.dumps(e, sort_keys=True)[:300])
+        rp = {"group": "table", "table": "fund", "mode": d["mode"], "seed": d.get("seed"), "zero_vol": d.get("zero_vol"),
+              "chunk": d.get("chunk"), "kind": d.get("kind")}
+        cases.append({"verdict": vd, "sig": {"mode": d["mode"], "kind": d.get("kind", "history")}, "replay": rp})
+    viol, known, out = judge.judge(prop, cases)
+    for ln in out:
+        print(ln)
+    hist = [d for d in lines if d["mode"] == "hist"]
+    cov = {"states": sum(m["states"] for m in models), "transitions": sum(m["transitions"] for m in models),
+           "traces_validated_against_impl": len(lines),
+           "samples": [{"chunk": hist[0]["chunk"], "first_events": hist[0]["ev"][:4]}, [d for d in lines if d["mode"] == "cases"][0]["cs"][0]],
+           "evaluations": nev, "distinct_nontrivial": len(distinct),
+           "rule": "distinct operations that regenerated, changed or shocked values (with the set of changed indices) plus distinct algebraic / sampling cases",
+           "exhaustive": False, "design_models": models, "histories": len(hist), "trace_validation_wall_s": round(r.wall, 1)}
+    evidence.write(prop, tier, seed, "model_checking", cov, ASSUMPTIONS_C12, time.time() - t0, viol)
+    print("%s tier=%s: design states=%d, histories=%d, operations+cases=%d, violations=%d, known=%d (%.0fs)" % (
+        prop, tier, cov["states"], len(hist), nev, viol, known, time.time() - t0))
+    return 1 if viol else 0
+
+
+ASSUMPTIONS_C12 = [
+    "TLC decides the history / regeneration half (which indices may change) and the rational return law; float comparisons (log-returns to 1e-6 absolute, zero-volatility closed form to 1e-9 relative, sampling within 6 standard errors) are harness side conditions passed to TLC as booleans or scaled integers",
+    "change times lie within the generated horizon (the setters index past the list otherwise - outside the admissible inputs)",
+    "the algebraic probe replaces the NumPy generator of the Fundamentals object by one returning chosen draws",
+]
+
+
 def check(prop, tier, seed, t0):
+    if prop == "C12":
+        return check_c12(tier, seed, t0)
     if prop == "C18":
         return check_c18(tier, seed, t0)
     if prop == "C20":
